@@ -8,6 +8,11 @@ State  = (formula, mass, environment, exposure, rest-time list, target).  A conf
          gets two lists placed at the code-visible break points of back-extrapolation: a single rest time
          at which the shortest-lived product has decayed by exp(-705) (still representable, above it
          exp(+x) overflows at 709.78) and by exp(-730) (product still non-zero, exp(+x) overflows).
+         Besides the fixed samples the alphabet holds FORCED COLLISIONS: every pair of rows of activation.dat
+         (independent reader) that produce the same nuclide with different tabulated half-lives (19 pairs, 15
+         nuclides) as a two-component sample in both component orders - the two target isotopes 1:1, the two
+         target isotopes balanced so that both rows contribute the same activity of the shared nuclide, and
+         the two natural elements 1:1.  Each product row decays with its OWN half-life.
 Oracle = the removal activities A_i(0) and half-lives T_i come from the oracle's OWN
          calculate_activation(env, exposure, rest_times=[0]) on a SECOND Sample of the same material
          (their correctness is C14; an entry at a later rest time is never un-decayed).  With
@@ -35,6 +40,10 @@ input class and read-only cause probes:
     times at a non-zero smallest rest time (nothing lost) named "derivative-factor-To-minus-1:<symptom>";
   * a product whose activity at removal is exactly 0.0 (two-step capture products at low fluence) and a
     ZeroDivisionError -> "initial-guess-divides-by-zero-activity-product";
+  * an inaccurate time for a sample in which one nuclide is produced by two table rows that carry different
+    half-lives (see collision_samples), where the returned time IS accurate for the sum in which all rows of
+    a nuclide decay with one of its half-lives (products merged by name) -> "inaccurate-time-returned:
+    nuclide-from-rows-with-different-half-lives";
   * anything else keeps a neutral name made of the violated clause and the input class
     ("negative-time-returned", "inaccurate-time-returned", "zero-returned-above-target[:target-just-
     below-removal-activity]", "positive-time-at-or-below-target", "exception:<class>",
@@ -43,7 +52,9 @@ The attribution was verified by repairing the slips one at a time on scratch cop
 report): each repair removes exactly its own signatures."""
 import math
 import numbers
+import decimal
 from ..common import Acc, load_pt, rotate, MachineryError
+from ..ref import activation as RA
 
 LN2 = math.log(2.0)
 BAND = 1e-12          # |A0 - target| <= BAND*A0: t == 0 and t > 0 are both accepted
@@ -67,6 +78,11 @@ SAMPLES = dict(
 )
 # the two tiers differ only in the samples; the grid below costs seconds
 MASSES = (1e-3, 1.0, 10.0, 1e3)
+# forced collisions: samples in which ONE nuclide is produced by two table rows that carry DIFFERENT half-lives
+# (derived from activation.dat by the independent reader, see collision_samples); the mass only scales
+COLLISION_MASSES = dict(quick=(1.0,), thorough=(1e-3, 1.0))
+BALANCE_ENV = (1e12, 1.0, 10.0)     # the environment / exposure at which the "balanced" stoichiometry makes the
+BALANCE_EXPOSURE = 10.0             # two rows contribute the same activity of the shared nuclide at removal
 ENVS = ((1e5, 70.0, 50.0), (1e8, 0.0, 0.0), (1e12, 1.0, 10.0))      # (fluence, Cd_ratio, fast_ratio)
 EXPOSURES = (0.1, 10.0, 1e3)
 # the first list is the control of the cause attribution and the first comparison base of oracle (5)
@@ -81,7 +97,11 @@ MULTS = (1e-9, 1e-8, 1e-7, 1e-6, 1e-5, 1e-4, 1e-3, 1e-2, 0.1, 0.3, 0.5, 0.6, 0.7
 META = dict(
     level="model_checking", engine="E1",
     technique="bounded-exhaustive grid of activated samples x rest-time lists x targets against a recomputed decay sum",
-    rule=("every (formula, mass, environment, exposure) configuration x every rest-time list (fixed lists plus "
+    rule=("samples: a fixed list plus FORCED COLLISIONS derived from activation.dat by the independent reader - "
+          "every pair of rows that produce one nuclide with different tabulated half-lives, as a two-component "
+          "sample in both component orders (target isotopes 1:1, target isotopes balanced to equal contributions, "
+          "natural elements 1:1); "
+          "every (formula, mass, environment, exposure) configuration x every rest-time list (fixed lists plus "
           "two per-configuration lists at the back-extrapolation break points lambda*To = 705 and 730 of the "
           "shortest-lived product) x every target multiplier of the activity at removal is executed through "
           "Sample.calculate_activation + Sample.decay_time on a fresh Sample; a case is non-trivial when the "
@@ -89,9 +109,11 @@ META = dict(
     bound=dict(
         quick="10 samples (Co30Fe70, Au, NaCl, Eu, Co, SiO2, Hf, Lu2O3, Cu[63]0.5Cu0.5, Co[59]Co - the last two name an isotope and its natural element) x 4 masses x 3 environments x 3 exposures = 360 "
               "configurations x (20 + 2) rest-time lists (3 of them on a Sample object that was activated before) x 26 target multipliers (1e-9 .. 10 times the activity at "
-              "removal, with 1-1e-9, 1, 1+1e-9)",
+              "removal, with 1-1e-9, 1, 1+1e-9); + 110 collision samples (19 row pairs, 15 nuclides) x mass 1 g x 3 "
+              "environments x 3 exposures = 990 configurations x the same lists and multipliers",
         thorough="15 samples (quick + In, Ag, CdTe, B4C, Li[6]0.3Li0.7F) x 4 masses x 3 environments x 3 exposures = 432 "
-                 "configurations x (20 + 2) rest-time lists (3 of them on a Sample object that was activated before) x 26 target multipliers (contains the quick grid)"),
+                 "configurations x (20 + 2) rest-time lists (3 of them on a Sample object that was activated before) x 26 target multipliers (contains the quick grid); "
+                 "+ 110 collision samples x masses {1e-3, 1} g x 3 environments x 3 exposures = 1980 configurations"),
     assumptions=[
         "the activities at removal and the half-lives are those served by calculate_activation(rest_times=[0]) "
         "and ActivationResult.Thalf_hrs of the tree under test (their correctness is property C14)",
@@ -104,6 +126,11 @@ META = dict(
         "two returned times count as the same answer if they agree to 1e-6 relative or the total activities at "
         "the two times agree to 1e-10 relative (t is ill-conditioned when the target is within 1e-9 of A0)",
         "nothing is claimed for real-valued masses, fluxes, exposures, rest times or targets off the grid",
+        "two rows of activation.dat that name the same nuclide with different half-lives are two products, each "
+        "decaying with its own tabulated half-life (the property text: 'each decaying with its own half-life'; the "
+        "library keys its results by table row)",
+        "decay_time only reads the Sample: the activities and rest times a caller can read from it are the same "
+        "before and after",
     ],
     level_text=("bounded-exhaustive execution of the real decay_time on every grid point; each returned time is "
                 "checked against the decay sum recomputed from independently obtained removal activities, and "
@@ -111,6 +138,61 @@ META = dict(
     level_note=("trusted base: the removal activities and half-lives served by the library itself (C14), the "
                 "20 lines of the oracle (fsum of A_i 2^(-t/T_i)), Python float arithmetic"),
 )
+
+
+# --------------------------------------------------------------------------------------- forced collisions
+def _count(x):
+    t = ("%.12f" % x).rstrip("0").rstrip(".")
+    return "" if t == "1" else t
+
+
+def collision_samples():
+    """[(formula, nuclide, description)] - every pair of rows of activation.dat that produce the same nuclide
+    with different tabulated half-lives, as a two-component sample in BOTH component orders:
+    the two target isotopes 1:1, the two target isotopes in the ratio that makes both rows contribute the same
+    activity of the shared nuclide at removal (BALANCE_ENV, exact reference solution), and the two natural
+    elements 1:1 (one sample if both targets are isotopes of one element)."""
+    rows, per_iso, report, col = RA.read_rows()
+    by = {}
+    for r in rows:
+        by.setdefault(r.daughter.strip(), []).append(r)
+    out, seen, pairs = [], set(), 0
+
+    def add(formula, nuclide, what):
+        if formula not in seen:
+            seen.add(formula)
+            out.append((formula, nuclide, what))
+
+    with decimal.localcontext(RA.CTX):
+        envr = RA.Env(*BALANCE_ENV)
+        for nuclide in sorted(by):
+            rs = by[nuclide]
+            for i in range(len(rs)):
+                for j in range(i + 1, len(rs)):
+                    r1, r2 = rs[i], rs[j]
+                    if r1.thalf_hrs == r2.thalf_hrs or (r1.Z, r1.A) == (r2.Z, r2.A):
+                        continue
+                    pairs += 1
+                    what = "%s(%s) T=%s h / %s(%s) T=%s h" % (r1.isotope, r1.reaction, r1.thalf_hrs,
+                                                               r2.isotope, r2.reaction, r2.thalf_hrs)
+                    i1, i2 = "%s[%d]" % (r1.symbol, r1.A), "%s[%d]" % (r2.symbol, r2.A)
+                    add(i1 + i2, nuclide, what)
+                    add(i2 + i1, nuclide, what)
+                    a1 = RA.solve(r1, envr, BALANCE_EXPOSURE).per_gram
+                    a2 = RA.solve(r2, envr, BALANCE_EXPOSURE).per_gram
+                    if a1 > 0 and a2 > 0:
+                        n1, n2 = 1 / (a1 * r1.A), 1 / (a2 * r2.A)       # moles for equal activities
+                        top = max(n1, n2)
+                        c1, c2 = _count(float(n1 / top)), _count(float(n2 / top))
+                        if c1 != "0" and c2 != "0":
+                            add(i1 + c1 + i2 + c2, nuclide, what + " balanced")
+                            add(i2 + c2 + i1 + c1, nuclide, what + " balanced")
+                    if r1.Z == r2.Z:
+                        add(r1.symbol, nuclide, what + " natural")
+                    else:
+                        add(r1.symbol + r2.symbol, nuclide, what + " natural")
+                        add(r2.symbol + r1.symbol, nuclide, what + " natural")
+    return out, pairs, len([n for n in by if len(set(r.thalf_hrs for r in by[n])) > 1])
 
 
 # --------------------------------------------------------------------------------------- library side
@@ -138,6 +220,8 @@ class Products(object):
         self.by_key = {}
         self.physical = True        # every product has a finite activity >= 0 and a half-life > 0
         self.has_zero = False       # some product has an activity of exactly 0.0 at removal
+        halflives = {}              # nuclide name -> the half-lives of the rows that produce it
+        self.names = []
         for a, v in ref.activity.items():
             if len(v) != 1:
                 raise MachineryError("reference activation has %d entries for one rest time" % len(v))
@@ -148,13 +232,49 @@ class Products(object):
                 self.has_zero = True
             self.items.append((A, T))
             self.by_key[a] = A
+            name = str(getattr(a, "daughter", id(a))).strip()
+            self.names.append(name)
+            if A > 0:
+                halflives.setdefault(name, set()).add(T)
         self.A0 = math.fsum(A for A, _ in self.items) if self.physical else float("nan")
+        # input class (naming only): one nuclide is produced by rows that carry different half-lives
+        self.collides = sorted(n for n, ts in halflives.items() if len(ts) > 1)
+        self.halflives = halflives
         live = [T for A, T in self.items if A > 0]
         self.Tmin = min(live) if live else None
 
     def S(self, t):
         """Total activity t hours after removal (t >= 0)."""
         return math.fsum(A * 2.0 ** (-t / T) for A, T in self.items)
+
+    def merged_explains(self, t, target):
+        """Cause probe (naming only): is t accurate for a sum in which all rows that produce one nuclide decay
+        with ONE of that nuclide's tabulated half-lives (products merged by nuclide name)?"""
+        import itertools
+        if not self.collides:
+            return False
+        options = [sorted(self.halflives[n]) for n in self.collides]
+        n = 1
+        for o in options:
+            n *= len(o)
+        if n > 64:
+            return False
+        for choice in itertools.product(*options):
+            one = dict(zip(self.collides, choice))
+            s = math.fsum(A * 2.0 ** (-t / one.get(name, T)) for (A, T), name in zip(self.items, self.names))
+            if abs(s - target) <= ACCURACY * target + ROUND * max(s, target):
+                return True
+        return False
+
+
+def held_by(sample):
+    """What a caller can read from an activated Sample (activities per product row, rest times)."""
+    try:
+        acts = sorted((getattr(a, "isotope", "?"), getattr(a, "daughter", "?"), getattr(a, "reaction", "?"),
+                       [float(x) for x in v]) for a, v in sample.activity.items())
+        return (acts, [float(t) for t in sample.rest_times])
+    except Exception as e:      # noqa
+        return ("unreadable", type(e).__name__)
 
 
 def call(sample, target):
@@ -314,7 +434,10 @@ def name_call(act, kind, out, rest, lost, sample, P, target):
             return "zero-returned-above-target:target-just-below-removal-activity"
         return "zero-returned-above-target"
     if kind == "inaccurate":
-        return "rest-list-dependence:inaccurate-time" if lost.values else "inaccurate-time-returned"
+        if lost.values:
+            return "rest-list-dependence:inaccurate-time"
+        merged = out[0] == "time" and P.merged_explains(float(out[1]), target)
+        return "inaccurate-time-returned" + (":nuclide-from-rows-with-different-half-lives" if merged else "")
     if kind == "negative-time":
         return "rest-list-dependence:negative-time" if lost.values else "negative-time-returned"
     if kind == "positive-below-target":
@@ -433,6 +556,7 @@ def check_config(acc, act, cfg, lists, mults, edges=True, report=None, pair=None
     acc.count("activated_samples", len(lists))
     acc.count("lists_with_information_lost", sum(1 for l in lost if l.values))
     control = next((i for i, rest in enumerate(lists) if min(rest) == 0), None)
+    held = [held_by(s) for s in samples]        # decay_time only reads the Sample
     for mult in mults:
         target = P.A0 * mult
         nontrivial = P.A0 - target > BAND * P.A0
@@ -462,7 +586,8 @@ def check_config(acc, act, cfg, lists, mults, edges=True, report=None, pair=None
             sig = name_call(act, kind, out, rest, lo, s, P, target)
             case = make_case(cfg, rest, mult)
             acc.violation(sig, case, expected=expected, observed=observed, standalone=snippet(case, expected),
-                          detail=dict(A0=P.A0, target=target, smallest_rest=min(rest), information_lost=lo.why))
+                          detail=dict(A0=P.A0, target=target, smallest_rest=min(rest), information_lost=lo.why,
+                                      nuclides_with_two_half_lives=P.collides))
         # oracle (5): every list against the first list whose own outcome is acceptable
         if pair is not None:
             pairs = [(lists.index(pair[0]), lists.index(pair[1]))]
@@ -482,6 +607,16 @@ def check_config(acc, act, cfg, lists, mults, edges=True, report=None, pair=None
             acc.violation(sig, case, expected=expected, observed=show(outs[i]),
                           standalone=snippet(case, expected),
                           detail=dict(A0=P.A0, target=target, information_lost=lost[i].why or lost[base].why))
+    for rest, s, before in zip(lists, samples, held):
+        if report is not None and rest not in report:
+            continue
+        acc.transitions += 1
+        after = held_by(s)
+        if after != before:
+            case = make_case(cfg, rest, mults[-1])
+            expected = "activities and rest times held by the Sample are the same before and after decay_time"
+            acc.violation("decay_time-alters-the-sample", case, expected=expected,
+                          observed="%r -> %r" % (before, after), standalone=snippet(case, expected))
     return P
 
 
@@ -511,10 +646,21 @@ def run(ctx):
         for mass in MASSES:
             cfgs = [(formula, mass, envt, exposure) for envt in ENVS for exposure in EXPOSURES]
             jobs.append((tier, cfgs))
+    collide, pairs, nuclides = collision_samples()
+    n_collide = 0
+    for formula, nuclide, what in rotate(collide, ctx.seed):
+        for mass in COLLISION_MASSES[tier]:
+            cfgs = [(formula, mass, envt, exposure) for envt in ENVS for exposure in EXPOSURES]
+            n_collide += len(cfgs)
+            jobs.append((tier, cfgs))
     ctx.pmap(_shard, jobs)
     acc = ctx.acc
     acc.traces = acc.transitions
-    acc.info["configurations"] = len(SAMPLES[tier]) * len(MASSES) * len(ENVS) * len(EXPOSURES)
+    acc.info["configurations"] = len(SAMPLES[tier]) * len(MASSES) * len(ENVS) * len(EXPOSURES) + n_collide
+    acc.info["collision_nuclides"] = nuclides
+    acc.info["collision_row_pairs"] = pairs
+    acc.info["collision_samples"] = len(collide)
+    acc.sample(dict(collision_samples=[c[0] for c in collide]))
     acc.info["fixed_rest_lists"] = len(LISTS)
     acc.info["target_multipliers"] = len(MULTS)
     if not acc.viol and (acc.nontrivial < 2 or not any(k.startswith("returns-time") for k in acc.outcomes)):
